@@ -292,6 +292,7 @@ fn payloads(thorough: bool) -> Vec<Vec<u8>> {
     let mut v: Vec<Vec<u8>> = vec![
         b"the quick brown fox jumps over the lazy dog. the quick brown fox jumps again.".to_vec(),
         b"abracadabra abracadabra".to_vec(),
+        b"abracadabra".to_vec(),
     ];
     if thorough {
         v.push((0..48u32).map(|i| ((i * 7) % 11 + (i % 3) * 80) as u8).collect());
@@ -343,6 +344,39 @@ struct PDef {
 
 const fn pd(name: &'static str, olen: bool, restart: bool, raw3: bool) -> PDef {
     PDef { name, olen, restart, raw3 }
+}
+
+/// Parsers whose single call costs tens of milliseconds by design (a 257 x 4096 decode table is
+/// rebuilt on every call): raw strings up to length 1 only, and in the quick tier only the
+/// shortest encoding.  The enumeration per encoding stays complete.
+/// The same class holds the loaders that work on a file (each case writes and maps a scratch file).
+const SLOW: [&str; 7] = [
+    "huff.ctx.decode_x1",
+    "huff.ctx.decode_x2",
+    "huff.ctx.decode_x4",
+    "huff.ctx.decode_x8",
+    "zreorder.open",
+    "mmapvec.open.u64",
+    "mmapvec.open.u8",
+];
+impl PDef {
+    fn slow(&self) -> bool {
+        SLOW.contains(&self.name)
+    }
+    fn rawmax(&self, g_raw: u64) -> u64 {
+        if self.slow() {
+            1
+        } else {
+            g_raw.min(2)
+        }
+    }
+}
+fn raw_count(k: u64) -> usize {
+    match k {
+        0 => 1,
+        1 => 257,
+        _ => 65793,
+    }
 }
 
 const STRATS: [(&str, VarIntStrategy); 7] = [
@@ -578,7 +612,7 @@ fn setup(name: &str, pl: &[Vec<u8>], want_encs: bool, cur: Option<&Enc>, tmp: &P
             if want_encs {
                 // one tree per context: the serialisation of longer texts runs to tens of kilobytes
                 let mut small: Vec<Vec<u8>> = vec![b"abcabcab".to_vec(), b"aabba".to_vec()];
-                if pl.len() > 2 {
+                if pl.len() > 3 {
                     small.push(pl[1].clone());
                 }
                 for (pi, p) in small.iter().enumerate() {
@@ -1207,14 +1241,19 @@ fn plan(def: &PDef, enc: Option<&Enc>, g: &Generated, thorough: bool) -> Vec<Seg
                     std::process::exit(2)
                 });
                 for k in KINDS {
+                    if k == b'c' && def.slow() && def.olen && !thorough {
+                        continue; // quick tier: no window x truncation combinations for the 50 ms-per-call decoders
+                    }
                     let n = cd.by_kind.get(&k).map(|v| v.len()).unwrap_or(0);
                     segs.push(Seg { variant, kind: k, start: pos, count: n, len: l, combo: cd.combo.clone() });
                     pos += n;
                 }
             }
             None => {
-                segs.push(Seg { variant, kind: b'r', start: pos, count: g.raw_descs.len(), len: 0, combo: "class".into() });
-                pos += g.raw_descs.len();
+                // RawSeq lists the strings by length: a prefix of it is RawSeq(k) for a smaller k
+                let n = raw_count(def.rawmax(g.raw)).min(g.raw_descs.len());
+                segs.push(Seg { variant, kind: b'r', start: pos, count: n, len: 0, combo: "class".into() });
+                pos += n;
                 if thorough && def.raw3 && g.raw >= 3 {
                     segs.push(Seg { variant, kind: b'R', start: pos, count: 1 << 24, len: 3, combo: "class".into() });
                     pos += 1 << 24;
@@ -1393,6 +1432,7 @@ struct JobResult {
     sigs: BTreeMap<usize, String>, // how a fatal case ended
     children: usize,
     tool_err: Option<String>,
+    wall_ms: u64,
 }
 
 const MAX_FATAL_PER_SEG: usize = 4;
@@ -1407,7 +1447,8 @@ fn run_job(a: &Args, job: &JobSpec, dir: &Path, encs_file: &Path) -> JobResult {
     }
     let panics_path = dir.join("panics.txt");
     let st = StatusMap::open(&status);
-    let mut res = JobResult { codes: vec![], panics: BTreeMap::new(), sigs: BTreeMap::new(), children: 0, tool_err: None };
+    let t0 = std::time::Instant::now();
+    let mut res = JobResult { codes: vec![], panics: BTreeMap::new(), sigs: BTreeMap::new(), children: 0, tool_err: None, wall_ms: 0 };
     let mut from = 0usize;
     let mut fatal = vec![0usize; job.segs.len()];
     let mut timeouts = vec![0usize; job.segs.len()];
@@ -1440,7 +1481,13 @@ fn run_job(a: &Args, job: &JobSpec, dir: &Path, encs_file: &Path) -> JobResult {
             from.to_string(),
         ];
         // the per-case limit is enforced by the watchdog inside the child; this is the safety net
-        let o = run_child(&args, 1800, AS_LIMIT_MB, true);
+        let budget = a.get_u64("job-secs", if a.thorough() { 2400 } else { 300 });
+        let left = budget.saturating_sub(t0.elapsed().as_secs());
+        if left == 0 {
+            res.tool_err = Some(format!("job exceeded its wall budget of {budget} s at case {from} of {}", job.total));
+            break;
+        }
+        let o = run_child(&args, left.max(CASE_TIMEOUT_MS / 1000 + 5), AS_LIMIT_MB, true);
         res.children += 1;
         let cur = st.get_u64(0) as usize;
         let in_case = st.get_u64(1) == 1;
@@ -1485,6 +1532,10 @@ fn run_job(a: &Args, job: &JobSpec, dir: &Path, encs_file: &Path) -> JobResult {
                 }
             }
             ChildOutcome::Timeout => {
+                if t0.elapsed().as_secs() >= budget {
+                    res.tool_err = Some(format!("job exceeded its wall budget of {budget} s at case {cur} of {}", job.total));
+                    break;
+                }
                 if in_case && phase == 1 {
                     Some((cur, O_TIMEOUT, "batch limit".into()))
                 } else {
@@ -1524,6 +1575,7 @@ fn run_job(a: &Args, job: &JobSpec, dir: &Path, encs_file: &Path) -> JobResult {
     }
     unsafe { libc::munmap(st.ptr as *mut libc::c_void, st.len) };
     let _ = fs::remove_dir_all(dir);
+    res.wall_ms = t0.elapsed().as_millis() as u64;
     res
 }
 
@@ -1551,6 +1603,13 @@ fn encode_main(a: &Args) -> i32 {
                 vec![]
             }
         };
+        let mut encs = encs;
+        let max_encs = if d.slow() && d.olen {
+            encs.sort_by_key(|e| e.bytes.len());
+            max_encs / 2
+        } else {
+            max_encs
+        };
         // distinct encodings only
         let mut seen: Vec<Vec<u8>> = vec![];
         let mut k = 0;
@@ -1573,7 +1632,7 @@ fn encode_main(a: &Args) -> i32 {
     let all_max = a.get_u64("combo-all-max", if a.thorough() { 160 } else { 0 }) as usize;
     let classes: Vec<Value> = lens.keys().map(|&l| json!({"len": l, "combo": if l <= all_max { "all" } else { "class" }})).collect();
     let raw = a.get_u64("raw", if a.thorough() { 3 } else { 2 });
-    let params = json!({"win": a.get_u64("win", 64), "raw": raw, "classes": classes});
+    let params = json!({"win": a.get_u64("win", 96), "raw": raw, "classes": classes});
     fs::write(a.out.join("params.json"), serde_json::to_vec(&params).unwrap()).unwrap();
     write_summary(&a.out, &json!({"encodings": n, "length_classes": lens.len(), "parsers_without_encoding": without}));
     0
@@ -1661,8 +1720,17 @@ fn run_main(a: &Args) -> i32 {
     let results = Arc::try_unwrap(results).ok().unwrap().into_inner().unwrap();
 
     // ---- events
+    // parsers with a non-allowed outcome get a trace file of their own (the two-pass validation
+    // cuts a rejected subject out of its file; one subject per file keeps that linear)
+    let mut dirty: BTreeMap<&str, bool> = BTreeMap::new();
+    for (i, job) in jobs.iter().enumerate() {
+        let r = results[i].as_ref().expect("job result");
+        let bad = r.codes.iter().any(|&c| c != O_OK && c != O_ERR);
+        *dirty.entry(job.def.name).or_insert(false) |= bad;
+    }
     let mut tr = Tracer::new(&a.out, "c15");
     tr.max_events = 400;
+    let mut bad_tracers: Vec<Tracer> = vec![];
     let mut subjects = serde_json::Map::new();
     let (mut cases, mut nontrivial, mut children) = (0u64, 0u64, 0usize);
     let mut totals = [0u64; 9];
@@ -1671,11 +1739,13 @@ fn run_main(a: &Args) -> i32 {
     let mut base_all = 0;
     let mut cur_parser = "";
     let mut pstat = [0u64; 9];
+    let mut ptime: BTreeMap<String, u64> = BTreeMap::new();
     let mut samples: Vec<Value> = vec![];
     let empty: Vec<u8> = vec![];
     for (i, job) in jobs.iter().enumerate() {
         let r = results[i].as_ref().expect("job result");
         children += r.children;
+        *ptime.entry(job.def.name.to_string()).or_default() += r.wall_ms;
         if let Some(t) = &r.tool_err {
             tool_errs.push(format!("{} {}: {}", job.def.name, job.enc.as_ref().map(|e| e.id.as_str()).unwrap_or("raw"), t));
         }
@@ -1685,7 +1755,15 @@ fn run_main(a: &Args) -> i32 {
             }
             pstat = [0; 9];
             cur_parser = job.def.name;
-            tr.reset("Parser", job.def.name, json!({"win": g.win, "raw": g.raw.min(2), "olen": job.def.olen}));
+            let cfg = json!({"win": g.win, "raw": job.def.rawmax(g.raw), "olen": job.def.olen});
+            if dirty[job.def.name] {
+                let mut t = Tracer::new(&a.out, &format!("c15-bad-{:03}", bad_tracers.len()));
+                t.max_events = usize::MAX;
+                t.reset("Parser", job.def.name, cfg);
+                bad_tracers.push(t);
+            } else {
+                tr.reset("Parser", job.def.name, cfg);
+            }
         }
         let ebytes: &[u8] = job.enc.as_ref().map(|e| &e.bytes[..]).unwrap_or(&empty);
         for seg in &job.segs {
@@ -1731,7 +1809,11 @@ fn run_main(a: &Args) -> i32 {
             if samples.len() < 4 && (seg.kind == b't' || seg.kind == b'm') && i % 7 == 0 {
                 samples.push(ev.clone());
             }
-            tr.ev(ev);
+            if dirty[job.def.name] {
+                bad_tracers.last_mut().unwrap().ev(ev);
+            } else {
+                tr.ev(ev);
+            }
             for k in 0..9 {
                 totals[k] += cnt[k];
                 pstat[k] += cnt[k];
@@ -1746,14 +1828,21 @@ fn run_main(a: &Args) -> i32 {
         subjects.insert(cur_parser.to_string(), stat_json(&pstat));
     }
     tr.close();
+    let mut n_events = tr.total_events;
+    let mut n_runs = tr.runs;
+    for t in bad_tracers.iter_mut() {
+        t.close();
+        n_events += t.total_events;
+        n_runs += t.runs;
+    }
     let vacuous: Vec<&str> = registry().iter().filter(|d| a.wants(d.name) && encs.get(d.name).map(|v| v.is_empty()).unwrap_or(true)).map(|d| d.name).collect();
     write_summary(
         &a.out,
         &json!({
-            "events": tr.total_events, "runs": tr.runs, "cases": cases, "nontrivial_cases": nontrivial, "jobs": njobs, "children": children,
+            "events": n_events, "runs": n_runs, "dirty_parsers": dirty.values().filter(|&&b| b).count(), "cases": cases, "nontrivial_cases": nontrivial, "jobs": njobs, "children": children,
             "outcomes": stat_json(&totals), "subjects": subjects, "tool_errors": tool_errs,
             "base_cases": base_all, "base_cases_ok_exact": base_ok, "parsers_without_valid_encoding": vacuous, "samples": samples,
-            "length_classes": g.classes.len(), "win": g.win, "raw": g.raw,
+            "length_classes": g.classes.len(), "win": g.win, "raw": g.raw, "job_wall_ms": ptime,
         }),
     );
     if tool_errs.is_empty() {
